@@ -1754,7 +1754,7 @@ def split_messages(raw: bytes) -> list[bytes]:
     return out
 
 
-def run_hold_scenario(hold_time: int, arrivals_ms: list[int], until_ms: int | None = None, stage: str = 'established', peer_hold: int | None = None, routes: int = 0, arrival_kind: str = 'keepalive') -> dict:
+def run_hold_scenario(hold_time: int, arrivals_ms: list[int], until_ms: int | None = None, stage: str = 'established', peer_hold: int | None = None, routes: int = 0, arrival_kind: str = 'keepalive', api_events: list | None = None, cfg_extra: dict | None = None) -> dict:
     """Hold / keepalive timers on the real Peer under virtual time.
 
     A session is established with our hold time `hold_time` and the peer's `peer_hold` (default the
@@ -1762,17 +1762,20 @@ def run_hold_scenario(hold_time: int, arrivals_ms: list[int], until_ms: int | No
     `stage='openconfirm'` only the peer's OPEN is sent, which is the F18 scenario: then silence in
     OPENCONFIRM) the remote writes one message of `arrival_kind` at each of `arrivals_ms` (virtual
     milliseconds after that moment) and is silent otherwise, until `until_ms` (default: last arrival
-    + negotiated hold time + 5 s).
+    + negotiated hold time + 5 s).  `api_events`: [(ms, event)] — what the API process asks for meanwhile
+    (`['queueRefresh']`, `['announce', k]`), performed at that virtual time; `cfg_extra`: other settings of the
+    rig's neighbor (`{'refresh': False}`: route-refresh capability not configured).
 
     Returns {'t0': virtual seconds at which the stage was reached, 'negotiated': hold time,
     'wrote': [(ms after t0, 'KEEPALIVE' | 'NOTIFICATION c s' | ..., fsm state)] for every message
     ExaBGP wrote after t0, 'closed_ms': ms at which it closed the connection or None,
     'fsm': final FSM state, 'fsm_changes': [(ms, 'A>B')]}."""
     ph = hold_time if peer_hold is None else peer_hold
-    rig = SessionRig({'hold': hold_time, 'peer_hold': ph, 'routes': routes})
+    rig = SessionRig(dict(cfg_extra or {}, hold=hold_time, peer_hold=ph, routes=routes))
     negotiated = min(hold_time, ph)
     if until_ms is None:
         until_ms = (max(arrivals_ms) if arrivals_ms else 0) + (negotiated + 5) * 1000
+    timeline = sorted([(ms, 0, None) for ms in arrivals_ms] + [(ms, 1, ev) for ms, ev in (api_events or [])], key=lambda x: (x[0], x[1]))
     changes: list[tuple[float, str]] = []
     orig_emit = rig.emit
 
@@ -1792,10 +1795,13 @@ def run_hold_scenario(hold_time: int, arrivals_ms: list[int], until_ms: int | No
         out['t0'] = t0 - rig.t0
         mark = len(rig.wire)
         cmark = len(changes)
-        for ms in sorted(arrivals_ms):
+        for ms, is_api, ev in timeline:
             dt = t0 + ms / 1000.0 - rig.loop.time()
             if dt > 0:
                 await asyncio.sleep(dt)
+            if is_api:
+                await rig.event(list(ev))
+                continue
             if rig.remote_open.get(1):
                 try:
                     rig.remote_socks[1].sendall(rig.remote.bytes_of(arrival_kind))
